@@ -95,5 +95,9 @@ def run_case(case):
                             out.append(viol("worse-than-fcfs", "objective %d < fcfs objective %d" % (obj, fo), d.structure, f.structure))
                         if knotted:
                             outcome += " opt>fcfs" if obj > fo else " opt=fcfs"
+                    else:
+                        # 'never worse than first-come-first-served' presupposes that the baseline is a notation of the same structure
+                        out.append(viol("fcfs-baseline-invalid", "the first-come-first-served notation %s is not an encoding of %s, so the result cannot be compared with it" % (f.structure, case["pairs"]),
+                                        f.structure, d.structure))
                 outcome += " levels=%d" % (max(levels) + 1 if levels else 0)
     return dict(nontrivial=knotted, outcome=outcome, violations=out)
